@@ -46,7 +46,7 @@ pub fn check_c19(r: &Runner, ctx: &mut Ctx, l: &mut Local, rec: &CaseRec) -> Res
 
 fn run_build(r: &Runner, name: &str, cmd: &mut Command) {
     let t0 = std::time::Instant::now();
-    let out = cmd.output();
+    let out = crate::engine::run_external(cmd);
     match out {
         Ok(o) if o.status.success() => {
             r.note(format!("build ok: {} ({:.1} s)", name, t0.elapsed().as_secs_f64()));
@@ -304,10 +304,10 @@ fn cachegrind_irefs(bin: &std::path::Path, corpus: &str, repeat: usize) -> Resul
         match child.try_wait() {
             Ok(Some(_)) => break,
             Ok(None) => {
-                if t0.elapsed().as_secs() > 240 {
+                if t0.elapsed().as_secs() > crate::engine::env_u64("VERIF_CACHEGRIND_BUDGET_S", 900) {
                     let _ = child.kill();
                     let _ = child.wait();
-                    return Err("valgrind run exceeded its 240 s budget".into());
+                    return Err("valgrind run exceeded its time budget".into());
                 }
                 // this phase makes no per-case progress: keep the stall monitor quiet
                 crate::engine::PROGRESS.fetch_add(1, std::sync::atomic::Ordering::Relaxed);
